@@ -8,7 +8,7 @@ import re as _re
 from typing import Any, Dict, List, Optional, Set
 
 from .. import materialize, rx
-from ..core import Ctx, assigned_names, dotted, names_in, norm, stmts_local, walk_local
+from ..core import Ctx, Locals, assigned_names, dotted, names_in, norm, stmts_local, walk_local
 from ..paths import enumerate_paths, guards_of, stmt_of
 from ..typed import Typed, eyecite_class
 from .c04 import C04, dedupe_group_names
@@ -28,14 +28,17 @@ def rule_dispatch(ctx: Ctx, data):
     for s in stmts_local(gc.body):
         if isinstance(s, ast.Assign) and isinstance(s.value, ast.Call) and dotted(s.value.func) == "type":
             TT = norm(s.targets[0])
-    readers: Dict[str, ast.If] = {}
+    readers: Dict[str, ast.AST] = {}
     for n in walk_local(gc):
-        if isinstance(n, ast.If) and isinstance(n.test, ast.Compare) and len(n.test.ops) == 1 and norm(n.test.left) == TT:
-            cls = norm(n.test.comparators[0])
-            ok_is = isinstance(n.test.ops[0], ast.Is)
+        if isinstance(n, ast.Compare) and len(n.ops) == 1 and norm(n.left) == TT:
+            cls = norm(n.comparators[0])
+            ok_is = isinstance(n.ops[0], (ast.Is, ast.IsNot))
             ctx.ob("R-C01-1", f"find.get_citations/dispatch:{cls}/identity-test", ok_is,
-                   "token kinds are dispatched with `is` on the exact class (a subclass cannot shadow a branch)", node=n, mod=fm, nontrivial=False)
-            readers[cls] = n
+                   "token kinds are dispatched with `is` / `is not` on the exact class (a subclass cannot shadow a branch)", node=n, mod=fm, nontrivial=False)
+            readers.setdefault(cls, n)
+        if isinstance(n, ast.Call) and dotted(n.func) in ("isinstance", "issubclass") and n.args and norm(n.args[0]) in (TT, "token"):
+            ctx.ob("R-C01-1", f"find.get_citations/dispatch:{norm(n.args[1]) if len(n.args) > 1 else '?'}/identity-test", False,
+                   "token kinds are dispatched with isinstance: a subclass is taken for its base", node=n, mod=fm, nontrivial=False)
     ctx.need(TT is not None and readers, "token-type dispatch chain not found in get_citations")
     loop = next((s for s in gc.body if isinstance(s, ast.For)), None)
     paths = enumerate_paths(loop.body) if loop is not None else []
@@ -46,37 +49,64 @@ def rule_dispatch(ctx: Ctx, data):
             CV = st.value.args[0].id
             APP = st
     ctx.need(CV is not None, "no top-level `<list>.append(<citation>)` in the main loop of get_citations")
+
+    def known_type(p) -> Optional[str]:
+        """the token class the path has established (an `is K` taken, or an `is not K` refused)"""
+        for ev in p.events:
+            if ev[0] == "cond" and isinstance(ev[1], ast.Compare) and len(ev[1].ops) == 1 and norm(ev[1].left) == TT:
+                if (isinstance(ev[1].ops[0], ast.Is) and ev[2]) or (isinstance(ev[1].ops[0], ast.IsNot) and not ev[2]):
+                    return norm(ev[1].comparators[0])
+        return None
+
+    by_type: Dict[str, list] = {}
+    for p in paths:
+        k = known_type(p)
+        if k:
+            by_type.setdefault(k, []).append(p)
     for w in writers:
         if w in NOT_A_CITATION:
             used = any(any(isinstance(n, ast.Name) and n.id == w for n in walk_local(f)) for q, m, f in repo.all_funcs() if m.name == "helpers")
             ctx.ob("R-C01-1", f"token:{w}/consumed-as-context", used and w not in readers,
                    f"{w} is not a citation: it is consumed by the metadata scans in helpers (stop / paragraph tokens)", node=gc, mod=fm)
             continue
-        br = readers.get(w)
-        ok = br is not None
+        ps = by_type.get(w, [])
+        ok = bool(ps)
         why = "no branch tests this token class: its tokens are silently skipped"
         if ok:
-            # the branch assigns `citation` and reaches citations.append(citation)
-            assigns = any(isinstance(s, ast.Assign) and CV in assigned_names(s) for s in stmts_local(br.body))
-            reaches = False
-            for p in paths:
-                took = any(ev[0] == "cond" and ev[1] is br.test and ev[2] for ev in p.events)
-                if took and any(ev[0] == "stmt" and ev[1] is APP for ev in p.events):
-                    reaches = True
+            assigns = reaches = False
+            for p in ps:
+                a_ = any(ev[0] == "stmt" and isinstance(ev[1], ast.Assign) and CV in assigned_names(ev[1]) for ev in p.events)
+                r_ = any(ev[0] == "stmt" and ev[1] is APP for ev in p.events)
+                assigns = assigns or a_
+                reaches = reaches or (a_ and r_)
             ok = assigns and reaches
-            why = f"branch assigns citation={assigns}, reaches the append={reaches}"
+            why = f"a path that established this class assigns citation={assigns}, and reaches the append={reaches}"
         ctx.ob("R-C01-1", f"token:{w}/has-branch", ok, f"every token class an extractor can construct has a branch that builds a citation and appends it ({why})",
-               node=br or gc, mod=fm)
+               node=readers.get(w) or gc, mod=fm)
     for r in readers:
         ctx.ob("R-C01-1", f"find.get_citations/dispatch:{r}/constructible", r in writers,
                f"a branch for `{r}` exists but no extractor constructs that token class (dead branch: renamed class or missing extractor)", node=readers[r], mod=fm,
                nontrivial=False)
     # short vs full: _extract_shortform_citation iff token.short
-    br = readers.get("CitationToken")
-    if br is not None:
-        inner = [n for n in walk_local(br) if isinstance(n, ast.If) and isinstance(n.test, ast.Attribute) and n.test.attr == "short"]
-        ok = len(inner) == 1 and any("_extract_shortform_citation" in norm(s) for s in inner[0].body) and any("_extract_full_citation" in norm(s) for s in inner[0].orelse)
-        ctx.ob("R-C01-5", "find.get_citations/short-flag-dispatch", ok, "a citation token is extracted as a short form iff its extractor is flagged short", node=br, mod=fm)
+    ps = by_type.get("CitationToken", [])
+    if ps:
+        ok, n_s, n_f = True, 0, 0
+        for p in ps:
+            short = None
+            for ev in p.events:
+                if ev[0] == "cond" and isinstance(ev[1], ast.Attribute) and ev[1].attr == "short":
+                    short = ev[2]
+            calls = {dotted(c.func) for ev in p.events if ev[0] == "stmt" for c in ast.walk(ev[1]) if isinstance(c, ast.Call)}
+            if short is True:
+                n_s += 1
+                ok = ok and "_extract_shortform_citation" in calls and "_extract_full_citation" not in calls
+            elif short is False:
+                n_f += 1
+                ok = ok and "_extract_full_citation" in calls and "_extract_shortform_citation" not in calls
+            else:
+                ok = False
+        ctx.ob("R-C01-5", "find.get_citations/short-flag-dispatch", ok and n_s >= 1 and n_f >= 1,
+               f"a citation token is extracted as a short form iff its extractor is flagged short ({n_s} short / {n_f} full paths)", node=readers.get("CitationToken") or gc, mod=fm)
 
 
 def rule_short_pairing(ctx: Ctx, data):
@@ -188,6 +218,7 @@ def rule_scan_direction(ctx: Ctx):
     R = bind_mot(fn)
     TXT, TOK, IDXS, RX, WORDS = R["text"], R["token"], R["indexes"], R["regex"], R["words"]
     facts = {"forward": {}, "backward": {}}
+    LOC = Locals(fn)
     for n in walk_local(fn):
         if isinstance(n, ast.If) and norm(n.test) == "forward":
             for side, body in (("forward", n.body), ("backward", n.orelse)):
@@ -205,7 +236,8 @@ def rule_scan_direction(ctx: Ctx):
                         sl = s.value.slice
                         facts[side]["truncate"] = "keep-head" if sl.lower is None and sl.upper is not None else ("keep-tail" if sl.upper is None and isinstance(sl.lower, ast.UnaryOp) else "?")
                     if isinstance(s, ast.Assign) and norm(s.targets[0]) == IDXS:
-                        facts[side]["indexes"] = "ascending" if f"len({WORDS}))" in t and ", -1)" not in t else "descending"
+                        te = LOC.text(s.value, s)
+                        facts[side]["indexes"] = "ascending" if f"len({WORDS}))" in te and ", -1)" not in te else "descending"
     want = {"forward": {"anchor": "start", "grow": "append", "truncate": "keep-head", "indexes": "ascending"},
             "backward": {"anchor": "end", "grow": "prepend", "truncate": "keep-tail", "indexes": "descending"}}
     for side in ("forward", "backward"):
